@@ -87,6 +87,10 @@ def observers_doc():
 
 
 GADGET_DOCS = [
+    # a facility used only by a CONSTANT member of a gadget map that also has a dynamic member (every member gets an eval function)
+    ("import qmluic.QtWidgets\nQWidget {\n  QLineEdit { id: edit }\n  QLabel { id: lab\n    font.family: edit.text\n    font.pointSize: { console.log(\"x\"); 12 }\n  }\n}\n"),
+    ("import qmluic.QtWidgets\nQWidget {\n  QLineEdit { id: edit }\n  QLabel { id: lab\n    font.family: edit.text\n    font.pointSize: { console.warn(\"x\"); return 12 }\n    font.bold: true\n  }\n"
+     "  QLabel { font { family: edit.text; weight: { console.info(1); 50 } } }\n}\n"),
     ("import qmluic.QtWidgets\nQWidget {\n  QCheckBox { id: chk }\n  QSpinBox { id: spin }\n  QLabel { id: lab\n    font.bold: chk.checked\n    font.pointSize: spin.value\n"
      "    font.family: \"Mono\"\n    sizePolicy.horizontalPolicy: chk.checked ? QSizePolicy.Expanding : QSizePolicy.Fixed\n  }\n"
      "  QLabel { font { italic: chk.checked; underline: !chk.checked } }\n}\n"),
